@@ -77,3 +77,14 @@ def run(ctx):
                 "(stability observable) / 1<k<n / unsorted" % (L, N, Lp, ctx.q(9, 12)))
     ctx.assumptions = ["comparator is a total preorder on the key; element type is a 2-int struct",
                        "run size scaling: the macro text is the tree's, only _mjRUNSIZE is re-defined before instantiation"]
+
+
+def replay(ctx, path):
+    """Re-run the driver shard that produced a failure: ./check C22 --replay <file>"""
+    import json as _json
+    r = _json.load(open(path))["replay"]
+    exe = build.ensure_exe("c22_sort", ["drivers/c22_sort.c"])
+    p = subprocess.run([exe] + [str(x) for x in r["args"]], capture_output=True, text=True)
+    bad = [l for l in p.stdout.splitlines() if l.startswith("FAIL")]
+    print("\n".join(bad[:10]))
+    return 1 if bad else 0
